@@ -46,8 +46,13 @@ def id_menu(w, sym, level):
     syms = [p, g.OP('+', p, g.I(w, 1)), g.COND(p, g.I(w, 1), g.I(w, 2))] if w > 1 else [p, g.COND(p, g.I(1, 1), g.I(1, 0))]
     if level == 'const':
         return consts
+    if w >= 16:     # the state after 'mov ax, imm16': constant low half, symbolic high half (and the reverse)
+        half = w // 2
+        syms = syms + [g.CO((g.I(half, 0x1234 & irsem.mask(half)), 0, half), (g.SL(p, half, w), half, w))]
+        if level != 'small':
+            syms = syms + [g.CO((g.SL(p, 0, half), 0, half), (g.I(half, 0xfe12 & irsem.mask(half)), half, w))]
     if level == 'small':
-        return [None, consts[1], consts[-2] if w > 1 else consts[0], p, syms[-1]]
+        return [None, consts[1], consts[-2] if w > 1 else consts[0], p, syms[2] if w > 1 else syms[-1]] + (syms[3:] if w >= 16 else [])
     return [None] + consts + syms
 
 
